@@ -1,5 +1,11 @@
 package font
 
+import (
+	"fmt"
+
+	"github.com/tsawler/tabula/core"
+)
+
 // Font represents a PDF font
 type Font struct {
 	Name     string
@@ -12,6 +18,10 @@ type Font struct {
 
 	// ToUnicode CMap for character code to Unicode mapping
 	ToUnicodeCMap *CMap
+
+	// differences holds the /Differences of the font's encoding dictionary,
+	// applied on top of the encoding named by Encoding
+	differences *CustomEncoding
 }
 
 // NewFont creates a new font
@@ -88,6 +98,9 @@ func (f *Font) DecodeString(data []byte) string {
 	// Priority 3: Use font's Encoding property
 	if f.Encoding != "" {
 		enc := GetEncoding(f.Encoding)
+		if f.differences != nil {
+			enc = f.differences
+		}
 		decoded = enc.DecodeString(data)
 		return NormalizeUnicode(decoded)
 	}
@@ -101,6 +114,31 @@ func (f *Font) DecodeString(data []byte) string {
 	}
 	decoded = string(runes)
 	return NormalizeUnicode(decoded)
+}
+
+// applyDifferences records a /Differences array ([code name1 name2 ... code
+// name ...]: each name is the glyph of the next code) on top of the encoding
+// named by f.Encoding.
+func (f *Font) applyDifferences(diffs core.Array) error {
+	names := make(map[byte]string)
+	code := 0
+	for _, item := range diffs {
+		switch v := item.(type) {
+		case core.Int:
+			code = int(v)
+		case core.Name:
+			if code >= 0 && code <= 0xFF {
+				names[byte(code)] = string(v)
+			}
+			code++
+		default:
+			return fmt.Errorf("invalid differences array item: %T", item)
+		}
+	}
+	if len(names) > 0 {
+		f.differences = NewCustomEncodingFromGlyphs(GetEncoding(f.Encoding), names)
+	}
+	return nil
 }
 
 // IsVertical returns true if this font uses vertical writing mode
